@@ -76,6 +76,13 @@ func (s *LogSink) Snapshot() (panicLine, stack string) {
 	return s.LastPanic, st
 }
 
+// Recent returns the last log lines (error level and above).
+func (s *LogSink) Recent() []string {
+	s.mu.Lock()
+	defer s.mu.Unlock()
+	return append([]string{}, s.recent...)
+}
+
 var Sink = &LogSink{}
 
 // InstallSink routes the global zerolog logger into Sink. Must be called before nodes are created.
